@@ -10,12 +10,14 @@ import JRV.Driver.Wire
 import JRV.Driver.ConfigHeap
 import JRV.Driver.Transport
 import JRV.Driver.ServerLife
+import JRV.Driver.Server
+import JRV.Driver.JsonClass
 
 namespace JRV.Driver
 
 def components : List (String × (List String → String)) := [
   ("echo", echo), ("norm", norm), ("truthy", truthyC), ("pyeq", pyeqC), ("cmpint", cmpIntC)
-] ++ clientComponents ++ payloadComponents ++ headersComponents ++ wireComponents ++ configHeapComponents ++ transportComponents ++ serverLifeComponents
+] ++ clientComponents ++ payloadComponents ++ headersComponents ++ wireComponents ++ configHeapComponents ++ transportComponents ++ serverLifeComponents ++ serverComponents ++ jsonClassComponents
 
 def handle (line : String) : String :=
   match JRV.Codec.tokens line with
